@@ -41,6 +41,25 @@ class Zygote:
             raise RuntimeError("zygote died")
         return json.loads(line)
 
+    def concurrent(self, descs, schedule=(), loc_points=(), opcode=False):
+        """Run calls concurrently under a schedule in a fork of the pristine zygote (cold library state)."""
+        self.p.stdin.write(json.dumps({"concurrent": {"calls": descs, "schedule": list(schedule), "loc_points": list(loc_points),
+                                                      "opcode": opcode}}) + "\n")
+        self.p.stdin.flush()
+        line = self.p.stdout.readline()
+        if not line:
+            raise RuntimeError("zygote died")
+        return json.loads(line)
+
+    def trace(self, desc):
+        """Distinct library locations a call passes when it is the first call of a fresh process."""
+        self.p.stdin.write(json.dumps({"trace": desc}) + "\n")
+        self.p.stdin.flush()
+        line = self.p.stdout.readline()
+        if not line:
+            raise RuntimeError("zygote died")
+        return json.loads(line)
+
     def close(self):
         try:
             self.p.stdin.close()
@@ -53,6 +72,7 @@ def _serve():
     import schwifty  # noqa: F401  - import only; no library call is made in the zygote itself
     from vlib import calls
     base = calls.registry_snapshot()     # reads the registries built at import; no library call
+    repo = os.environ.get("VERIF_REPO", "/repo")
     sys.stdout.write("READY\n")
     sys.stdout.flush()
     for line in sys.stdin:
@@ -67,6 +87,20 @@ def _serve():
                 os.close(r)
                 if "history" in desc:
                     data = json.dumps(calls.run_history(desc["history"], base)).encode()
+                elif "concurrent" in desc:
+                    from vlib.engines import sched
+                    c = desc["concurrent"]
+                    try:
+                        outs, info = sched.run_concurrently([(lambda d=d: calls.outcome(d)) for d in c["calls"]],
+                                                            [tuple(x) for x in c["schedule"]], repo, c.get("opcode", False),
+                                                            loc_points=[tuple(x) for x in c.get("loc_points", [])])
+                        data = json.dumps({"outcomes": outs, "switches": info["switches"], "steps": info["steps"]}).encode()
+                    except sched.SchedulerError as e:
+                        data = json.dumps({"error": str(e)}).encode()
+                elif "trace" in desc:
+                    from vlib.engines import sched
+                    out, locs = sched.trace_locations(lambda: calls.outcome(desc["trace"]), repo)
+                    data = json.dumps({"outcome": out, "locs": locs}).encode()
                 else:
                     data = json.dumps(calls.outcome(desc)).encode()
                 os.write(w, data)
